@@ -395,11 +395,15 @@ class Store:
         self.vals = {}
         self.unmodelled = set()     # had a value once, the harness lost track of it (array grown with default elements)
         self.by_id = {}
+        self.cmd = {}
         for o in run.desc['objects']:
             obj = run.objs[o['name']]
             self.by_id[(obj.objectIdentifier[0], obj.objectIdentifier[1])] = (o, obj)
             for pid, spec in o.get('init', {}).items():
                 self.vals[(o['name'], pid)] = spec
+            if o.get('cmd'):
+                # 16 command slots of a commandable analog value; the default is what the object holds after construction
+                self.cmd[o['name']] = {'slots': [None] * 16, 'default': ['real', float(obj.relinquishDefault)]}
         dev = run.dev.device
         devo = {'name': 'DEV', 'cls': 'LocalDeviceObject', 'inst': dev.objectIdentifier[1], 'init': DEVICE_PROPS(run)}
         self.by_id[('device', dev.objectIdentifier[1])] = (devo, dev)
@@ -427,6 +431,8 @@ class Store:
         if p is None:
             return ERR('property', 'unknownProperty')
         key = (o['name'], prop)
+        if o['name'] in self.cmd and prop in ('presentValue', 'priorityArray'):
+            return self._cmd_read(self.cmd[o['name']], prop, idx)
         if key in self.unmodelled:
             return ('unmodelled',)
         if prop in COMPUTED or key not in self.vals:
@@ -458,6 +464,10 @@ class Store:
         if p is None:
             return {ERR('property', 'unknownProperty')}, None
         key = (o['name'], op['prop'])
+        if o.get('cmd') and op['prop'] == 'presentValue' and op.get('idx') is None and not op.get('wrong') \
+                and op['value'][0] in ('real', 'null') and (op.get('prio') is None or 1 <= op['prio'] <= 16):
+            # a command (or relinquish) at a priority: always accepted, lands in its slot
+            return {('ack',)}, ('cmd', o['name'])
         if o.get('cmd') and op.get('idx') is None:
             return {'*'}, None
         if key in self.unmodelled:
@@ -486,7 +496,28 @@ class Store:
             return causes, None
         return {('ack',)}, key
 
+    def _cmd_read(self, m, prop, idx):
+        from .c17 import slot_bytes, pa_bytes
+        if prop == 'presentValue':
+            if idx is not None:
+                return ERR('property', 'propertyIsNotAnArray')
+            win = next((x for x in m['slots'] if x is not None), m['default'])
+            return ('value', slot_bytes('real', win))
+        if idx is None:
+            return ('value', pa_bytes('real', m['slots']))
+        if idx == 0:
+            a = Any()
+            a.cast_in(Unsigned(16))
+            return ('value', any_bytes(a))
+        if 1 <= idx <= 16:
+            return ('value', slot_bytes('real', m['slots'][idx - 1]))
+        return ERR('property', 'invalidArrayIndex')
+
     def apply(self, op, key):
+        if key[0] == 'cmd':
+            m = self.cmd[key[1]]
+            m['slots'][(op.get('prio') or 16) - 1] = None if op['value'][0] == 'null' else copy.deepcopy(op['value'])
+            return
         dt = self.lookup(tuple(op['obj']))[1]._properties[op['prop']].datatype
         idx = op.get('idx')
         if idx is None:
@@ -609,9 +640,12 @@ def check(run, res):
         if o.get('cmd'):
             obj = run.objs[o['name']]
             pa = obj.priorityArray
+            m = store.cmd[o['name']]['slots']
             for i_ in range(1, 17):
-                if pa[i_].null is None:
-                    viol('C15.b', 'refused-write-changed-priority-array', 'at the end of the run slot %d of %s.priorityArray is occupied although every write the harness sent to it carried an array index and had to be refused' % (i_, o['name']))
+                have = None if pa[i_].null is not None else getattr(pa[i_], 'real', '?')
+                want = None if m[i_ - 1] is None else m[i_ - 1][1]
+                if have != want:
+                    viol('C15.b', 'priority-array-diverged', 'at the end of the run slot %d of %s.priorityArray holds %r, the acknowledged commands (and only they) leave %r there' % (i_, o['name'], have, want))
                     break
     w.probes['indications'] = n_ind
     return out
@@ -873,6 +907,17 @@ def gen_desc(seed, idx):
             ops.append({'op': 'wp', 'obj': ['analogValue', 77], 'prop': 'presentValue', 'value': rng.choice([['real', 5.0], ['null']]), 'idx': rng.choice([1, 3, 8, 16]),
                         'prio': rng.choice([None, 8]), 'c': 0, 'gap': 0.0})
             ops.append({'op': 'rp', 'obj': ['analogValue', 77], 'prop': 'presentValue', 'c': 0, 'gap': 0.0})
+        if has_cmd and rng.random() < 0.25:
+            # commands at priorities 1..16 (values repeat on purpose: equal to each other, to the default, to the value in effect)
+            ops.append({'op': 'wp', 'obj': ['analogValue', 77], 'prop': 'presentValue', 'value': rng.choice([['real', 0.0], ['real', 5.0], ['real', 5.0], ['real', 7.5], ['null'], ['null']]),
+                        'idx': None, 'prio': rng.choice([None, 1, 8, 8, 16, rng.randint(1, 16)]), 'c': 0, 'gap': 0.0})
+            u = rng.random()
+            if u < 0.5:
+                ops.append({'op': 'rp', 'obj': ['analogValue', 77], 'prop': 'presentValue', 'c': 0, 'gap': 0.0})
+            if u > 0.3:
+                ops.append({'op': 'rp', 'obj': ['analogValue', 77], 'prop': 'priorityArray', 'idx': rng.choice([None, None, 0, 1, 8, 16, 17, rng.randint(1, 16)]), 'c': 0, 'gap': 0.0})
+            if rng.random() < 0.15:
+                ops.append({'op': 'rpm', 'specs': [{'obj': ['analogValue', 77], 'refs': [{'prop': 'presentValue'}, {'prop': 'priorityArray'}, {'prop': 'priorityArray', 'idx': rng.choice([0, 8, 16, 17])}]}], 'c': 0, 'gap': 0.0})
     tout, tseg = 2.0, 0.5
     faults = fault_profile(rng, tout, tseg, allow_none=0.4)
     return {'prop': 'C15', 'seed': H(seed, 'C15run', idx) & 0x7fffffff, 'objects': objects, 'ops': ops, 'nclients': rng.choice([1, 2]),
